@@ -343,3 +343,156 @@ def validate_translation(var, work, seed, nruns=24):
             if t1 != t2:
                 disagreements.append(dict(entry=e.name, inputs=vals[:16], cpp=t1[-4:], c=t2[-4:], c_err=r2[2][-300:]))
     return checked, disagreements
+
+
+# ---------------------------------------------------------------------------- SMT units (ll2smt)
+class SmtEntry:
+    def __init__(self, name, mode="FP", int_mode="BV", timeout_ms=30000, desc="", approx_err=None, max_paths=512, witness=True, wall=900):
+        self.name, self.mode, self.int_mode, self.timeout_ms, self.desc = name, mode, int_mode, timeout_ms, desc
+        self.approx_err, self.max_paths, self.witness, self.wall = approx_err, max_paths, witness, wall
+
+
+class SmtUnit:
+    kind = "smt"
+
+    def __init__(self, name, src, entries, defines=(), assumptions=(), stubs=(), native_defines=(), clang_flags=()):
+        self.name, self.src, self.entries = name, src, entries
+        self.defines = list(defines)
+        self.assumptions = list(assumptions)
+        self.stubs = list(stubs)
+        self.native_defines = list(native_defines)
+        self.clang_flags = list(clang_flags)
+        self.unit = self
+
+    def run(self, work, rep, known, pool, seed):
+        from check import keep_replay, kf_match
+        tag = hashlib.sha1((" ".join(self.defines) + self.name).encode()).hexdigest()[:8]
+        base = work.path("%s_%s" % (self.name, tag))
+        ll = base + ".ll"
+        src = os.path.join(ROOT, self.src)
+        cmd = [CLANG] + CLANG_FLAGS + self.clang_flags + ["-I" + REPO, "-I" + work.inc, "-I" + os.path.join(ROOT, "harness")] + \
+              ["-D" + d for d in self.defines] + ["-S", "-emit-llvm", src, "-o", ll]
+        rc, so, se, dt = run(cmd, timeout=300)
+        if rc != 0:
+            raise RuntimeError("clang failed for %s:\n%s" % (src, se[-3000:]))
+        mod = llir.parse_file(ll)
+        present = set(n for n, f in mod.funcs.items() if not f.is_decl)
+        var = _SmtNative(work, self, base)
+        futs = []
+        for e in self.entries:
+            if e.name not in present:
+                rep.errors.append("unit %s: entry %s not found" % (self.name, e.name))
+                continue
+            cmd = [sys.executable, os.path.join(HERE, "ll2smt.py"), ll, e.name, "--mode", e.mode, "--int-mode", e.int_mode,
+                   "--timeout-ms", str(e.timeout_ms), "--max-paths", str(e.max_paths)]
+            if e.approx_err is not None:
+                cmd += ["--approx-err", str(e.approx_err)]
+            futs.append((e, pool.submit(run, cmd, e.wall)))
+        rep.stubs.extend(self.stubs)
+        rep.assumptions.extend(self.assumptions)
+        uinfo = {"unit": self.name, "src": self.src, "defines": self.defines, "entries": []}
+        kfs = [k for k in known if k.get("status") == "open" and k.get("unit") in (self.name, None)]
+        for e, fu in futs:
+            rc, so, se, dt = fu.result()
+            try:
+                r = json.loads(so)
+            except Exception:
+                rep.obligations += 1
+                rep.inconclusive.append("%s/%s: %s" % (self.name, e.name, "wall timeout %ds" % e.wall if rc == -9 else "engine error: " + se[-400:]))
+                print("INCONCLUSIVE %s/%s (%s)" % (self.name, e.name, "timeout" if rc == -9 else "engine error"))
+                if rc != -9:
+                    rep.errors.append("%s/%s ll2smt crashed: %s" % (self.name, e.name, se[-600:]))
+                continue
+            rep.queries += r["queries"]
+            rep.solver_s += r["solver_s"]
+            for fn in r["functions"]:
+                rep.encoded[fn] = fn_hashes(mod, [fn]).get(fn, "")
+            for a in r["assumptions"]:
+                if a not in rep.assumptions:
+                    rep.assumptions.append(a)
+            obs = r["obligations"]
+            nh = sum(1 for o in obs if o["status"] == "holds")
+            rep.obligations += len(obs)
+            rep.discharged += nh
+            rep.vccs += len(obs)
+            rep.vccs_nontrivial += len(obs)
+            einfo = {"entry": e.name, "desc": e.desc, "mode": e.mode + "/" + e.int_mode, "paths": r["paths"], "obligations": len(obs), "holds": nh,
+                     "wall_s": r["wall_s"], "solver_s": r["solver_s"]}
+            rep.bounds.append("%s/%s: mode %s/%s, loop-free or constant-trip kernels, %d path(s), per-query cap %d ms" % (self.name, e.name, e.mode, e.int_mode, r["paths"], e.timeout_ms))
+            if r["inconclusive"]:
+                rep.obligations += 1
+                rep.inconclusive.append("%s/%s: %s" % (self.name, e.name, r["inconclusive"]))
+                print("INCONCLUSIVE %s/%s (%s)" % (self.name, e.name, r["inconclusive"][:200]))
+            unk = [o for o in obs if o["status"] == "unknown"]
+            for o in unk:
+                rep.inconclusive.append("%s/%s [%s]: solver unknown within %d ms" % (self.name, e.name, o["label"], e.timeout_ms))
+                print("INCONCLUSIVE %s/%s [%s]" % (self.name, e.name, o["label"]))
+            if e.witness:
+                bad = [x for x in r["reach"] if x["status"] != "reachable"]
+                if not r["reach"] and not r["inconclusive"]:
+                    rep.errors.append("%s/%s has no vp_reach witness" % (self.name, e.name))
+                if bad:
+                    rep.errors.append("%s/%s VACUOUS: %s" % (self.name, e.name, bad))
+            viol = [o for o in obs if o["status"] == "violated"]
+            einfo["status"] = "fails" if viol else ("holds" if not unk and not r["inconclusive"] else "inconclusive")
+            uinfo["entries"].append(einfo)
+            rep.samples.append({"unit": self.name, "entry": e.name, "what": e.desc, "mode": e.mode, "obligations": len(obs),
+                                "labels": sorted(set(o["label"] for o in obs))[:10], "status": einfo["status"]})
+            if not viol:
+                continue
+            # group by known finding; replay one representative per group
+            groups = {}
+            for o in viol:
+                hit = None
+                for k in kfs:
+                    if k.get("entry") in (e.name, None, "*") and kf_match(k, o["label"], o["label"].split(":", 1)[-1]):
+                        hit = k
+                        break
+                groups.setdefault(hit["id"] if hit else None, (hit, []))[1].append(o)
+            for kid, (k, items) in groups.items():
+                rep_ok = None
+                for o in items[:3]:
+                    verdict, what, rf = replay_native(var, e, o.get("inputs", []), work, "%d" % (hash(o["label"]) & 0xffffff))
+                    rep.replayed += 1
+                    if verdict == "reproduced":
+                        rep_ok = (o, what, rf)
+                        break
+                labels = sorted(set(o["label"] for o in items))
+                if rep_ok is None:
+                    rep.errors.append("%s/%s: counterexample for %s did not reproduce natively - encoding, contract or harness is wrong (model %s)"
+                                      % (self.name, e.name, labels[:4], items[0].get("model")))
+                    continue
+                o, what, rf = rep_ok
+                if k is not None:
+                    print("KNOWN-FINDING: property=%s %s [%s/%s: %s]" % (rep.pid, k.get("what", kid), self.name, e.name, o["label"]))
+                    rep.known_hit.append(kid)
+                else:
+                    dst = keep_replay(rep.pid, rf, o["label"])
+                    open(dst, "a").write("# unit=%s entry=%s failing=%s native=%s\n" % (self.name, e.name, o["label"], what))
+                    print("VIOLATION property=%s replay=%s" % (rep.pid, dst))
+                    print("  obligation: %s/%s [%s] (+%d related) -> %s ; model %s" % (self.name, e.name, o["label"], len(labels) - 1, what, o.get("model")))
+                    rep.violations.append((o["label"], dst))
+        rep.units.append(uinfo)
+
+
+class _SmtNative:
+    """native replay build for an SMT unit (same interface as CbmcVariant.build_native)"""
+
+    def __init__(self, work, unit, base):
+        self.work, self.unit, self.base = work, unit, base
+        self.defs = list(unit.defines)
+        self.native = None
+
+    def build_native(self):
+        if self.native:
+            return self.native
+        u = self.unit
+        exe = self.base + "_native"
+        cmd = ["g++", "-std=c++17", "-O1", "-g", "-fsanitize=address,undefined", "-fno-sanitize-recover=undefined", "-ffp-contract=off",
+               "-fno-access-control", "-DRKCOMMON_VERIF", "-w", "-rdynamic", "-I" + REPO, "-I" + self.work.inc, "-I" + os.path.join(ROOT, "harness")] + \
+              ["-D" + d for d in self.defs + u.native_defines] + [os.path.join(ROOT, u.src), os.path.join(HERE, "rt", "native_rt.cpp"), "-o", exe, "-ldl", "-lpthread"]
+        rc, so, se, dt = run(cmd, timeout=600)
+        if rc != 0:
+            raise RuntimeError("native build failed:\n%s" % se[-3000:])
+        self.native = exe
+        return exe
